@@ -295,6 +295,48 @@ def check(case):
             judge_fit("added point below the hull", Xa2, yb, list(range(d)), modb[0], modb[1])
             if r.violations:
                 return r
+    # ---- a result that was returned earlier must not change when the estimator is used again
+    try:
+        first = m0.score_samples(X0, y)
+        keep = np.array(first, copy=True)
+        m0.score_samples(X0, y - 0.75)
+        m0.score_samples(X0, y + 0.5)
+        if not np.array_equal(np.asarray(first), keep):
+            r.fail("earlier-result-overwritten-by-a-later-call", "score_samples result changed from %s to %s" % (np.round(keep, 6).tolist(), np.round(np.asarray(first), 6).tolist()))
+            return r
+    except Exception as e:
+        r.fail("crash:%s" % type(e).__name__, "repeated score_samples: %r" % e)
+        return r
+    # ---- a large batch (3000 queries; block-wise code paths): every query is judged like a single one
+    base_q = []
+    for comb in itertools.combinations(range(n), d + 1):
+        wts = np.array([0.45, 0.35, 0.2][: d + 1])
+        base_q.append((wts / wts.sum()) @ pos[list(comb)])
+    base_q = np.array(base_q)
+    hv_b = []
+    okb = True
+    for q in base_q:
+        v, border = _hull_value(pos, y, q, d=d)
+        if v is None or border:
+            okb = False
+            break
+        hv_b.append(v)
+    if okb:
+        reps = int(np.ceil(3000 / len(base_q)))
+        Qb = np.tile(base_q, (reps, 1))[:3000]
+        Hb = np.tile(np.array(hv_b), reps)[:3000]
+        offs = np.where(np.arange(3000) % 3 == 0, -0.4, 0.3)  # every third query below the hull
+        Xb = Qb if d > 1 else np.hstack([Qb.reshape(-1, 1), np.zeros((3000, 1))])
+        try:
+            db = np.asarray(m0.score_samples(Xb, Hb + offs), float)
+        except Exception as e:
+            r.fail("crash:%s" % type(e).__name__, "large batch: %r" % e)
+            return r
+        r.states += 1
+        above = offs > 0
+        if (np.abs(db[above] - offs[above]) > 1e-7).any() or not (db[~above] < 0).all():
+            r.fail("large-batch-distances-wrong", "%d of 3000 queries wrong" % int((np.abs(db[above] - offs[above]) > 1e-7).sum() + (~(db[~above] < 0)).sum()))
+            return r
     # ---- queries inside the footprint
     qs = []
     for comb in itertools.combinations(range(n), d + 1):
